@@ -228,6 +228,9 @@ def run(ctx):
     from . import probe
     probe.run_render_probe(ctx, rng, n_crates=ctx.budget(1, 3), flavours=("string",), sig_prefix="fallback", per_key=1,
                            opts={"formatted_keys": False, "long_key": False})
+    # the same generated `match`es in the server build of lazily loaded translations (`dynamic_load` + `ssr`): every locale that falls back
+    # must be covered there too (compile only)
+    probe.compile_only_probe(ctx, rng, probe.DYN_SSR_FEATURES, "fallback", opts={"formatted_keys": False, "long_key": False})
     ctx.assumptions += PARSER_ASSUMPTIONS
     finish_broken(ctx, f"{len(projects)} projects")
     write_evidence(ctx, RULE)
